@@ -331,6 +331,7 @@ func (e *Engine) prelude(c *Ctx) string {
 			}
 		}
 	}
+	sb.WriteString("(assert (forall ((s Str) (a Int)) (! (= (substr s a a) lit!0) :pattern ((substr s a a)))))\n")
 	sb.WriteString("(assert (forall ((s Str)) (! (= (sconcat s lit!0) s) :pattern ((sconcat s lit!0)))))\n")
 	sb.WriteString("(assert (forall ((s Str)) (! (= (sconcat lit!0 s) s) :pattern ((sconcat lit!0 s)))))\n")
 	for _, n := range e.ufOrder {
